@@ -903,6 +903,18 @@ pub fn run_c03(cfg: &Cfg) -> Report {
                         let l = bad.len();
                         bad[l - 1] = 0xC3; // truncated scalar at the very end of a long string
                         c03_compare(t, &shape, &text, sfp, "long_bad_utf8", &bad);
+                        // the same length in multi-byte scalars at four alignments
+                        for lead in 0..4usize {
+                            let mut txt = "a".repeat(lead);
+                            while txt.len() < len / 8 + 300 {
+                                txt.push_str(["\u{e9}", "\u{65e5}", "\u{1f980}", "\u{e9}\u{65e5}x"][lead]);
+                            }
+                            let mut m = varint_bytes(txt.len() as u128);
+                            m.extend_from_slice(txt.as_bytes());
+                            c03_compare(t, &shape, &text, sfp, "long_multibyte", &m);
+                            c03_compare(t, &shape, &text, sfp, "long_multibyte", &m);
+                            c03_compare(t, &shape, &text, sfp, "long_multibyte", &m);
+                        }
                     }
                 }
             }
@@ -1208,6 +1220,30 @@ where
                             }
                         } else {
                             t.st.max("max_alloc_bytes_unjudged", al.bytes as u64);
+                        }
+                    }
+                }
+                // reader-based decoding of the same bytes with a small scratch buffer: same allocation claim
+                if at_tail {
+                    let mut scratch = [0u8; 24];
+                    let (res, al) = count_allocs(|| catch(|| postcard::from_io::<T, _>((&input[..], &mut scratch[..])).map(|_| ())));
+                    t.st.count("reader_decodes_under_alloc_monitor");
+                    let rp = vec![kv("kind", "concrete"), kv("type", name), kv("input", hex(&input))];
+                    match res {
+                        Err(p) => {
+                            t.st.violation("C04:panic", format!("{}: from_io panicked: {} (input {})", name, p, hexs(&input)), rp);
+                            break;
+                        }
+                        Ok(_) => {
+                            let bound = 16 * (input.len() + 1) * elem_size.max(1) + 256;
+                            if judge_alloc && al.bytes > bound {
+                                t.st.violation(
+                                    "C04:allocation-exceeds-bound",
+                                    format!("{}: {} bytes requested while decoding a {}-byte input through from_io with 24 bytes of scratch (bound {}, largest request {}) (input {})", name, al.bytes, input.len(), bound, al.max_request, hexs(&input)),
+                                    rp,
+                                );
+                                break;
+                            }
                         }
                     }
                 }
